@@ -33,3 +33,27 @@ package quorum
 //@   props C06
 //@   requires totalWeight >= 1
 //@   ensures [exact] result == (totalWeight - 1) / 3
+
+//@ func getCommitteeSubsetWeight
+//@   props C06
+//@   requires SumMW(allCommitteeMembers, len(allCommitteeMembers)) < 2^64
+//@   ensures [value] result == SW(committeeSubset, allCommitteeMembers, len(allCommitteeMembers))
+//@   loop range committeeSubset
+//@     invariant [set] forall x Str :: subsetIdsSet[x] == (exists j :: 0 <= j && j < $i && hex(content(committeeSubset[j])) == x)
+//@     invariant [nonnil] subsetIdsSet != nil
+//@   loop range allCommitteeMembers
+//@     invariant [sum] sum == SW(committeeSubset, allCommitteeMembers, $i)
+
+//@ func IsQuorum
+//@   props C06
+//@   requires SumMW(allCommitteeMembers, len(allCommitteeMembers)) < 2^64
+//@   ensures [iff] result0 == (SW(committeeSubset, allCommitteeMembers, len(allCommitteeMembers)) >= Qz(SumMW(allCommitteeMembers, len(allCommitteeMembers))))
+//@   ensures [weight] result1 == SW(committeeSubset, allCommitteeMembers, len(allCommitteeMembers))
+//@   ensures [q] result2 == Qz(SumMW(allCommitteeMembers, len(allCommitteeMembers)))
+
+//@ func HasHonest
+//@   props C06
+//@   requires SumMW(allCommitteeMembers, len(allCommitteeMembers)) < 2^64
+//@   ensures [iff] result0 == (SW(committeeSubset, allCommitteeMembers, len(allCommitteeMembers)) > Fz(SumMW(allCommitteeMembers, len(allCommitteeMembers))))
+//@   ensures [weight] result1 == SW(committeeSubset, allCommitteeMembers, len(allCommitteeMembers))
+//@   ensures [f] result2 == Fz(SumMW(allCommitteeMembers, len(allCommitteeMembers)))
